@@ -100,11 +100,13 @@ namespace fastscapelib
     {
         if (m_paused)
         {
+            FSL_VERIF_POINT(verif::c_prelock, this, 0, &m_cv_m);
             {
                 // a worker that has incremented the paused count may not be waiting
                 // yet: it holds the mutex until it waits, so taking the mutex here
                 // ensures that the notification is not lost
                 std::lock_guard<std::mutex> lk(m_cv_m);
+                FSL_VERIF_POINT(verif::c_locked, this, 0, &m_cv_m);
             }
             FSL_VERIF_POINT(verif::c_notify, this, 0, &m_cv_m);
             m_cv.notify_all();
